@@ -22,10 +22,29 @@ def install_stubs(I, repo, ctxd):
     I.summaries["etsi.fec.bptc_196_96:BPTC19696.deinterleave_data_bits"] = lambda I_, fi, a, kw, bc: ABits([I_.atom_form(("info", i)) for i in range(96)], "ba")
 
     def mk_flc(I_, fi, a, kw, bc):
-        o = AObj(flc_ci, {"full_link_control_opcode": flcos["GroupVoiceChannelUser"], "source_address": 1, "group_address": 2, "target_address": 3, "__pdu__": "FLC"})
+        o = flc_header(I_, flc_ci, flcos)
         ctxd["made"].append(o)
         return o
 
+    I.summaries[repo.find_method(flc_ci, "from_bits").qualname] = mk_flc
+    install_rest(I, repo, ctxd, dh_ci, csbk_ci, csbko)
+
+
+def flc_header(I_, flc_ci, flcos):
+        o = AObj(flc_ci, {"full_link_control_opcode": flcos["GroupVoiceChannelUser"], "source_address": 1, "group_address": 2, "target_address": 3, "__pdu__": "FLC"})
+        if "TalkerAliasHeader" in flcos and I_.st.choose("flc:talker alias header"):
+            # a full LC of another kind: the talker alias header with arbitrary alias octets (whatever the tracker does with the
+            # header it keeps — logging its rendering included — must not fail on them)
+            o.attrs["full_link_control_opcode"] = flcos["TalkerAliasHeader"]
+            o.attrs["talker_alias_data"] = ABits([I_.atom_form(("alias", i)) for i in range(48)], "bytes")
+            o.attrs["talker_alias_data_length"] = 6
+            o.attrs["talker_alias_data_format"] = AOpq("alias format", notnone=True)
+        for k_ in ("protect_flag", "feature_set_id", "service_options", "crc"):
+            o.attrs.setdefault(k_, AOpq(k_, notnone=True))     # fields of every full LC that the stub does not decide
+        return o
+
+
+def install_rest(I, repo, ctxd, dh_ci, csbk_ci, csbko):
     def mk_dh(I_, fi, a, kw, bc):
         o = AObj(dh_ci, {"is_response_requested": AInt([I_.atom_form(("dh.resp", 0))], isbool=True), "__pdu__": "DH", "sap_identifier": sap_choice(I_, repo)})
         ctxd["made"].append(o)
@@ -43,7 +62,6 @@ def install_stubs(I, repo, ctxd):
         ctxd["made"].append(o)
         return o
 
-    I.summaries[repo.find_method(flc_ci, "from_bits").qualname] = mk_flc
     I.summaries[repo.find_method(dh_ci, "from_bits").qualname] = mk_dh
     I.summaries[repo.find_method(dh_ci, "get_blocks_to_follow").qualname] = dh_btf
     I.summaries[repo.find_method(dh_ci, "__repr__").qualname] = lambda *a: "DH"
@@ -194,6 +212,8 @@ def run(ctx):
                 ctxd = {"made": []}
                 I = Interp(repo)
                 I.explore_undefined_enums = True   # an element enumeration that refuses a received value is a (raising) path of its own
+                I.strict_decode_may_raise = True   # received octets decoded with a codec that can fail: the failure is a path
+                I.interpret_repr = True            # repr(<header>) in a log call runs the header's own __repr__
                 install_stubs(I, repo, ctxd)
 
                 def run_t(st, tname=tname, hkind=hkind, kind=kind):
@@ -204,7 +224,7 @@ def run(ctx):
                     t.attrs["type"] = types[tname]
                     hdr = None
                     if hkind == "FLC":
-                        hdr = AObj(flc_ci, {"full_link_control_opcode": flcos["GroupVoiceChannelUser"], "source_address": 1, "group_address": 2, "target_address": 3, "__pdu__": "FLC"})
+                        hdr = flc_header(I, flc_ci, flcos)
                     elif hkind == "DH":
                         hdr = AObj(dh_ci, {"is_response_requested": False, "__pdu__": "DH", "sap_identifier": sap_choice(I, repo)})
                     t.attrs["header"] = hdr
